@@ -462,7 +462,7 @@ pub fn check_setsums(st: &Store) -> Vec<Finding> {
         }
     }
     // the live tree lists the same set
-    let levels = st.kvs().verif_tree().verif_levels();
+    let levels = st.tree().verif_levels();
     let live: BTreeSet<String> = levels
         .iter()
         .flatten()
@@ -686,7 +686,7 @@ pub fn check_compaction_step(
 /// unless sst/ has it too.
 pub fn check_files_present(st: &Store) -> Vec<Finding> {
     let mut out = vec![];
-    let levels = st.kvs().verif_tree().verif_levels();
+    let levels = st.tree().verif_levels();
     for m in levels.iter().flatten() {
         let ss = Setsum::from_digest(m.setsum);
         let p = lsmtk::SST_FILE(&st.dir, ss);
